@@ -33,35 +33,7 @@ def AXIOMS(c):
             SIN(PI / 2) == 1]
 
 
-def history_cache():
-    """self._cache after an ARBITRARY call history (the property quantifies over histories): any key may or may not be present.  A present
-    'orbit' entry is a KeplerOrbit template whose elements are arbitrary (get_orbit overwrites every one of them); any other present key holds an
-    arbitrary, unknown value.  Entries written during the call are known."""
-    memo_has, memo_val = {}, {}
-
-    def mk(known):
-        o = Obj("dict-after-any-history", {"known": known})
-
-        def contains(item, o=o):
-            if item in o.fields["known"].vals:
-                return True
-            if item not in memo_has:
-                memo_has[item] = z3.Bool(f"cache_has_{item}")
-            return memo_has[item]
-
-        def getitem(ex, path, recv, key, node):
-            kn = recv.fields["known"]
-            if key in kn.vals:
-                return kn.vals[key]
-            if key not in memo_val:
-                memo_val[key] = Obj("KeplerOrbit", {"elements": Obj("KeplerElements", {})}) if key == "orbit" else Opaque(f"stale-cache-entry:{key}")
-            return memo_val[key]
-
-        def setitem(ex, path, recv, key, value, node):
-            return mk(recv.fields["known"].set(key, value))
-        o.fields.update({"__contains__": contains, "__getitem__": getitem, "__setitem__": setitem})
-        return o
-    return mk(PyDict())
+history_cache = C17.history_cache
 
 
 def samples_self(poly_trend, n_offsets, n=None):
